@@ -122,3 +122,11 @@ def nontrivial(r):
             jobs[ob["res"][1]] = 1 if o["call"] == 5 else o.get("max_att", 0)
     last = r["obs"][-1] if r["obs"] and "jobs" in r["obs"][-1] else None
     return bool(last) and any(n > 0 and last["jobs"].get(k, (0, 0, 0))[2] >= n for k, n in jobs.items())
+
+
+# ---- asyncio share ("in both front ends")
+from .. import aiomix  # noqa: E402
+from . import c18 as _c18  # noqa: E402
+
+aiomix.install(globals(), 0.25, lambda rng: aiomix.stream(rng, _c18.scenarios), aiomix.c06_specs,
+               note="C18-style histories (limits 50%, raising runs, deletions, coroutines using their scheduler); Spec: attempts and invocations <= max_attempts, exhausted => unregistered, registered => attempts remain, never back")
